@@ -440,7 +440,11 @@ fn valid_operand(e: &E) -> bool {
 pub fn well_formed(e: &E) -> bool {
     match e {
         E::Effect(v, body) => {
-            matches!(**v, E::Int(_) | E::Float(_) | E::Str(_) | E::Sym(_) | E::Unit | E::True | E::False | E::Input | E::Ident(_)) && well_formed(body) && !matches!(**body, E::Effect(..))
+            // after a value, or after a closed group (the block then joins the group's content)
+            (matches!(**v, E::Int(_) | E::Float(_) | E::Str(_) | E::Sym(_) | E::Unit | E::True | E::False | E::Input | E::Ident(_))
+                || matches!(&**v, E::Group(g) if well_formed(g) && !matches!(**g, E::Effect(..) | E::Seq(..))))
+                && well_formed(body)
+                && !matches!(**body, E::Effect(..))
         }
         E::Un(_, x) | E::Group(x) | E::Reapply(x) => well_formed(x) && !matches!(**x, E::Seq(..)),
         E::Nested(x) => well_formed(x),
@@ -499,7 +503,12 @@ pub fn rand_atom(r: &mut Rng, cfg: &GenCfg) -> E {
 
 pub fn rand_expr(r: &mut Rng, depth: usize, cfg: &GenCfg) -> E {
     if depth == 0 || r.chance(1, 5) {
-        let a = rand_atom(r, cfg);
+        let mut a = rand_atom(r, cfg);
+        if cfg.allow_effects && depth > 0 && r.chance(1, 40) {
+            // side-effect block right after a closed group
+            a = E::Group(rand_expr(r, depth - 1, &GenCfg { allow_effects: false, allow_seq: false, ..clone_cfg(cfg) }).b());
+            return E::Effect(a.b(), rand_expr(r, 1, &GenCfg { allow_effects: false, allow_seq: false, ..clone_cfg(cfg) }).b());
+        }
         if cfg.allow_effects && r.chance(1, 14) {
             return E::Effect(a.b(), rand_expr(r, depth.saturating_sub(1).min(2), &GenCfg { allow_effects: false, allow_seq: false, ..clone_cfg(cfg) }).b());
         }
